@@ -27,7 +27,17 @@ theorem pure_ok {α} (a : α) (s : PS) (r : α × PS) : (pure a : P α) s = .ok 
   · intro h; rw [h]
 
 theorem fail_ok {α} (msg : String) (s : PS) (r : α × PS) : (fail msg : P α) s = .ok r ↔ False := by
-  simp [fail]
+  simp only [fail]; split <;> simp
+
+theorem failTok_ok {α} (msg : String) (s : PS) (r : α × PS) : (failTok msg : P α) s = .ok r ↔ False := by
+  simp only [failTok]; split <;> simp
+
+theorem failAt_ok {α} (t : Tok) (msg : String) (s : PS) (r : α × PS) : (failAt t msg : P α) s = .ok r ↔ False := by
+  simp [failAt]
+
+theorem failTokAt_ok {α} (t : Tok) (msg : String) (s : PS) (r : α × PS) :
+    (failTokAt t msg : P α) s = .ok r ↔ False := by
+  simp [failTokAt]
 
 theorem ite_ok {α} (c : Prop) [Decidable c] (a b : P α) (s : PS) (r : α × PS) :
     (if c then a else b) s = .ok r ↔ (c ∧ a s = .ok r) ∨ (¬ c ∧ b s = .ok r) := by
@@ -47,7 +57,7 @@ theorem advance_ok (s : PS) (t : Tok) (s' : PS) :
 
 theorem expect_ok (k : TokKind) (s : PS) (t : Tok) (s' : PS) :
     expect k s = .ok (t, s') ↔ ∃ ts, s.toks = t :: ts ∧ t.kind = k ∧ s' = ⟨ts, t⟩ := by
-  simp only [expect, bind_ok, peek_ok, ite_ok, advance_ok, fail_ok]
+  simp only [expect, bind_ok, peek_ok, ite_ok, advance_ok, failTok_ok]
   constructor
   · rintro ⟨a, s1, ⟨ts, h1, rfl⟩, h2⟩
     rcases h2 with ⟨hk, ts', h3, rfl⟩ | ⟨_, h⟩
@@ -58,7 +68,7 @@ theorem expect_ok (k : TokKind) (s : PS) (t : Tok) (s' : PS) :
 
 theorem expectKeyword_ok (kw : Text) (s : PS) (t : Tok) (s' : PS) :
     expectKeyword kw s = .ok (t, s') ↔ ∃ ts, s.toks = t :: ts ∧ t.kind = .name ∧ t.value = kw ∧ s' = ⟨ts, t⟩ := by
-  simp only [expectKeyword, bind_ok, peek_ok, ite_ok, advance_ok, fail_ok]
+  simp only [expectKeyword, bind_ok, peek_ok, ite_ok, advance_ok, failTok_ok]
   constructor
   · rintro ⟨a, s1, ⟨ts, h1, rfl⟩, h2⟩
     rcases h2 with ⟨⟨hk, hv⟩, ts', h3, rfl⟩ | ⟨_, h⟩
